@@ -46,6 +46,10 @@ var (
 	c03Perms  = []uint32{0644, 0600, 0755, 0700, 0777, 0444, 04755, 02755, 01777, 0}
 )
 
+// suffixes whose first byte is below '/': a sibling "x<suffix>" sorts between "x" and "x/..." bytewise,
+// but after every "x/..." in the order of the protocol (ComparePath: the separator sorts first)
+var c03LowSuffix = []string{" ", "!", "-", ".", ".b", "-1", "+", ",x", "."}
+
 func c03Mtime(r *Rng) int64 { return int64(1e18) + int64(r.Intn(1000000))*1000003 }
 
 func c03GenNode(r *Rng, name string, depth int, budget *int, stream bool) *c03N {
@@ -102,6 +106,10 @@ func c03GenKids(r *Rng, depth int, budget *int, stream bool) []*c03N {
 		}
 		used[name] = true
 		kids = append(kids, c03GenNode(r, name, depth, budget, stream))
+		if d := name + Pick(r, c03LowSuffix); r.Chance(12) && !used[d] && *budget > 0 {
+			used[d] = true
+			kids = append(kids, c03GenNode(r, d, depth, budget, stream))
+		}
 	}
 	sort.Slice(kids, func(i, j int) bool { return kids[i].name < kids[j].name })
 	return kids
@@ -322,6 +330,8 @@ func c03Mutate(r *Rng, kids []*c03N, depth int) []*c03N {
 	used := map[string]bool{}
 	for _, k := range kids {
 		used[k.name] = true
+	}
+	for _, k := range kids {
 		x := r.Intn(100)
 		switch {
 		case x < 40: // unchanged (its subtree is mutated further)
@@ -372,10 +382,19 @@ func c03Mutate(r *Rng, kids []*c03N, depth int) []*c03N {
 				c.kids = c03GenKids(r, depth+1, &b, true)
 			}
 			out = append(out, c)
+			if d := k.name + Pick(r, c03LowSuffix); k.typ == 1 && c.typ != 1 && r.Chance(40) && !used[d] {
+				// next to a directory that stops being one: a new sibling that sorts between its name and its old children
+				used[d] = true
+				b2 := 3
+				out = append(out, c03GenNode(r, d, depth, &b2, true))
+			}
 		}
 	}
 	for i := r.Intn(3); i > 0; i-- {
 		name := Pick(r, c03Pool)
+		if len(kids) > 0 && r.Chance(20) {
+			name = Pick(r, kids).name + Pick(r, c03LowSuffix)
+		}
 		if used[name] {
 			continue
 		}
